@@ -391,6 +391,8 @@ def replay(pid, path):
             engine_kgraph.run(pid, "quick", data.get("seed", 0), res, only=[rp["case"]])
         elif eng == "kvalue":
             engine_kvalue.run(pid, "quick", data.get("seed", 0), res, only=[dict(prog=rp["prog"], args=rp["args"])])
+        elif pid == "C17":
+            engine_khist_async(pid, "quick", data.get("seed", 0), res, only=[rp["case"]])
         else:
             engine_khist.run(pid, "quick", data.get("seed", 0), res, only=[rp["case"]])
         bad = [h for h in res.hits if h["prop"] == pid]
@@ -476,6 +478,22 @@ REGISTRY["C17"] = dict(engines=[engine_kthread.run_async, engine_ksched], rule=(
                        "event-loop liveness: an async-thread node that completes only after a sibling coroutine of the same loop has run || " + SCHED_RULE),
                        assumptions=["the event loop itself (asyncio) is not modelled; liveness is monitored"])
 
+def engine_khist_async(pid, tier, seed, res, only=None):
+    """C17 'records the same setup results as the DAG built from the same function': the K-hist histories of the AsyncDAG
+    flavour only; whatever they show about setup results (C11) or leaked state (C15) of an AsyncDAG is a difference
+    between the two flavours as long as the same check passes for the DAG flavour"""
+    from .main import Result
+    tmp = Result()
+    engine_khist.run("C11", tier, seed, tmp, only=only)
+    for h in tmp.hits:
+        cse = (h.get("replay") or {}).get("case") or {}
+        if h["prop"] in ("C11", "C15") and cse.get("is_async"):
+            res.hit("C17", h["kind"], "AsyncDAG: " + h["desc"], h.get("replay"))
+    res.evaluations += tmp.evaluations
+    res.distribution["khist_async"] = {k_: v_ for k_, v_ in tmp.distribution.get("khist", {}).items() if "async" in str(k_)}
+    res.engine_info["khist_async"] = tmp.engine_info.get("khist", {})
+
+
 from . import engine_kconc  # noqa: E402
 
 CONC_RULE = ("K-conc: 2-3 executions of ONE DAG object at the same time, each in its own thread (AsyncDAG: its own loop) under its own controller and completion order "
@@ -484,6 +502,8 @@ CONC_RULE = ("K-conc: 2-3 executions of ONE DAG object at the same time, each in
 for _p in ("C16", "C17"):
     REGISTRY[_p]["engines"] = list(REGISTRY[_p]["engines"]) + [engine_kconc.run]
     REGISTRY[_p]["rule"] += " || " + CONC_RULE
+REGISTRY["C17"]["engines"] = list(REGISTRY["C17"]["engines"]) + [engine_khist_async]
+REGISTRY["C17"]["rule"] += " || the K-hist histories (setup / call / executor / cache operations) on AsyncDAG instances: setup results recorded and reused exactly as the model says"
 
 from . import engine_kconf  # noqa: E402
 
@@ -498,9 +518,9 @@ from . import scenarios  # noqa: E402
 
 REGISTRY["C09"]["engines"] = list(REGISTRY["C09"]["engines"]) + [engine_khist.run]
 REGISTRY["C09"]["rule"] += " || " + HIST_RULE
-for _p in ("C09", "C14", "C17", "C16", "C10", "C13", "C08", "C04", "C11", "C18"):
+for _p in ("C09", "C14", "C17", "C16", "C10", "C13", "C08", "C04", "C11", "C18", "C01", "C07"):
     REGISTRY[_p]["engines"] = list(REGISTRY[_p]["engines"]) + [scenarios.run]
-    REGISTRY[_p]["rule"] += " || hand-written scenarios without the controller (harness/scenarios.py): failing calls that leave nodes running followed by another failing call; a node calling another DAG at run time; the first awaits of an AsyncDAG started together; a failing async node with a running sibling; concurrent builds / calls under a tiny switch interval; a debug node inside a deactivated nested DAG; a wide DAG whose limit exceeds any default pool size; setup nodes returning builtin containers (object identity across executions); concurrent executors of one DAG writing their own cache files"
+    REGISTRY[_p]["rule"] += " || hand-written scenarios without the controller (harness/scenarios.py): failing calls that leave nodes running followed by another failing call; a node calling another DAG at run time; the first awaits of an AsyncDAG started together; a failing async node with a running sibling; concurrent builds / calls under a tiny switch interval; a debug node inside a deactivated nested DAG; a wide DAG whose limit exceeds any default pool size; setup nodes returning builtin containers (object identity across executions); concurrent executors of one DAG writing their own cache files; a chain of 700 dependent calls"
 
 REGISTRY["C02"]["engines"] = [engine_ksched, engine_kvalue.run]
 REGISTRY["C02"]["rule"] = SCHED_RULE + " || " + VALUE_RULE
